@@ -13,6 +13,7 @@ import (
 	"math/rand"
 	"os"
 	"path/filepath"
+	"sort"
 
 	"github.com/itchio/lake/tlc"
 	"github.com/itchio/wharf/pwr/bowl"
@@ -39,7 +40,13 @@ type c14BowlLine struct {
 
 func shiftedPair(rng *rand.Rand, k int) (old, new []byte, desc string, shift int) {
 	sz := []int{20000, 90000, 262144, 300000, 700000}[rng.Intn(5)]
-	switch k % 5 {
+	switch k % 6 {
+	case 5: // a small header inserted in front: the new content is the old one d bytes LATER (d at most the skip threshold)
+		old = randBytes(rng, sz)
+		d := []int{1, 100, 4096, 8191, 8192, 8193}[rng.Intn(6)]
+		new = append(randBytes(rng, d), old...)
+		desc = fmt.Sprintf("front-insert-%d", d)
+		shift = -d
 	case 0: // a prefix of the old file dropped, new tail appended
 		old = randBytes(rng, sz)
 		p := 1 + rng.Intn(sz/2)
@@ -158,6 +165,28 @@ func cmdC14Bowl(args []string) error {
 				line.Acts = append(line.Acts, bowlAct{Op: "begin-scratch"})
 			}
 			if lastAttempt {
+				// saves in the middle of the session, the SAME writer carries on afterwards (what the patcher does at
+				// every checkpoint it is not stopped at); for a front insertion: right after the inserted bytes
+				var savePoints []int
+				if shift < 0 && pos == 0 && rng.Intn(4) != 0 {
+					savePoints = append(savePoints, -shift)
+				}
+				for i := 0; i < rng.Intn(3); i++ {
+					savePoints = append(savePoints, pos+rng.Intn(len(new)-pos+1))
+				}
+				sort.Ints(savePoints)
+				for _, sp := range savePoints {
+					if sp <= pos || line.Err != "" {
+						continue
+					}
+					pos = writeSome(ew, pos, sp)
+					if line.Err == "" {
+						if _, err := ew.Save(); err != nil {
+							fail("Save: %v", err)
+						}
+						line.Acts = append(line.Acts, bowlAct{Op: "save", N: pos})
+					}
+				}
 				pos = writeSome(ew, pos, len(new))
 				if line.Err == "" {
 					if err := ew.Finalize(); err != nil {
@@ -172,7 +201,7 @@ func cmdC14Bowl(args []string) error {
 			upto := pos + rng.Intn(len(new)-pos+1)
 			// leave the old-file reader exactly where the new content agrees with the old one again (new[i] =
 			// old[shift+i]): a later beginning that does not reposition the reader then "recognises" everything
-			exact := shift > 0 && pos == 0 && shift <= len(new) && rng.Intn(2) == 0
+			exact := shift > 0 && pos == 0 && shift <= len(new) && rng.Intn(2) == 0 // (shift < 0: see the last attempt)
 			if exact {
 				upto = shift
 			}
